@@ -468,9 +468,61 @@ static void runCases(const char* fn)
    unlink(tmpf.c_str());
 }
 
+// "what is set is what is used" across a solve: the selections a from-scratch optimize() re-derives from the parameters
+// (_enableSimplifierAndScaler and friends) must be the objects the parameters name, or none where the solve switches one off
+static int scalerCode(SP& s)
+{
+   if(s._scaler == nullptr) return 0;
+   if(s._scaler == (SPxScaler<double>*)&s._scalerUniequi) return 1;
+   if(s._scaler == (SPxScaler<double>*)&s._scalerBiequi) return 2;
+   if(s._scaler == (SPxScaler<double>*)&s._scalerGeo1) return 3;
+   if(s._scaler == (SPxScaler<double>*)&s._scalerGeo8) return 4;
+   if(s._scaler == (SPxScaler<double>*)&s._scalerLeastsq) return 5;
+   if(s._scaler == (SPxScaler<double>*)&s._scalerGeoequi) return 6;
+   return 9;
+}
+static void afterSolve()
+{
+   for(int sc = 0; sc <= 6; sc++)
+      for(int pers = 0; pers <= 1; pers++)
+         for(int simp = 0; simp <= 1; simp++)
+            for(int pricer = 0; pricer <= 5; pricer += 5)
+            {
+               SP s;
+               quiet(s);
+               s.setIntParam(SP::SCALER, sc);
+               s.setBoolParam(SP::PERSISTENTSCALING, pers == 1);
+               s.setIntParam(SP::SIMPLIFIER, simp);
+               s.setIntParam(SP::PRICER, pricer);
+               int before = scalerCode(s);
+               loadLP(s);
+               // badly scaled on purpose, so that every scaler has something to do
+               s.changeElementReal(0, 0, 4096.0);
+               s.changeElementReal(1, 1, -1.0 / 1024.0);
+               int st = (int) s.optimize();
+               int after = scalerCode(s);
+               std::string nm = s._scaler != nullptr ? s._scaler->getName() : "-";
+               int pr = 9;
+               const void* p = s._solver.pricer();
+
+               if(p == (SPxPricer<double>*)&s._pricerAuto) pr = 0;
+               else if(p == (SPxPricer<double>*)&s._pricerDantzig) pr = 1;
+               else if(p == (SPxPricer<double>*)&s._pricerParMult) pr = 2;
+               else if(p == (SPxPricer<double>*)&s._pricerDevex) pr = 3;
+               else if(p == (SPxPricer<double>*)&s._pricerQuickSteep) pr = 4;
+               else if(p == (SPxPricer<double>*)&s._pricerSteep) pr = 5;
+
+               int simpAfter = s._simplifier == nullptr ? 0 : (s._simplifier == (SPxSimplifier<double>*)&s._simplifierMainSM ? 1 : 9);
+               printf("AFTERSOLVE scaler=%d persistent=%d simplifier=%d pricer=%d before=%d after=%d simp_after=%d pricer_after=%d status=%d param=%d name=%s\n",
+                      sc, pers, simp, pricer, before, after, simpAfter, pr, st, s.intParam(SP::SCALER), vf::hex(nm).c_str());
+            }
+}
+
 int main(int argc, char** argv)
 {
-   if(argc >= 2 && !strcmp(argv[1], "table"))
+   if(argc >= 2 && !strcmp(argv[1], "aftersolve"))
+      afterSolve();
+   else if(argc >= 2 && !strcmp(argv[1], "table"))
       dumpTable();
    else if(argc >= 3 && !strcmp(argv[1], "run"))
       runCases(argv[2]);
